@@ -274,12 +274,96 @@ func (c *pgCase) readFrom(bi int, size int) {
 	c.observe()
 }
 
+// writeAt: pb.WriteAt over a range inside the buffer (back-patching), when the hook offers it.
+type writerAt interface {
+	WriteAt(b []byte, off int64) (int, error)
+}
+
+func (c *pgCase) writeAt(bi int) bool {
+	r := c.r
+	b := c.bufs[bi]
+	wa, ok := interface{}(b.vb).(writerAt)
+	size := len(b.shadow)
+	if !ok || size == 0 {
+		return false
+	}
+	np := size / pgPageSize
+	var off, n int
+	switch x := r.Intn(100); {
+	case x < 20 || np == 0: // anywhere, short
+		off = r.Intn(size)
+		n = 1 + r.Intn(12)
+	case x < 40: // ends exactly on a page boundary
+		n = 1 + r.Intn(12)
+		off = (1+r.Intn(np))*pgPageSize - n
+	case x < 55: // starts exactly on a page boundary
+		off = (1 + r.Intn(np)) * pgPageSize
+		n = 1 + r.Intn(12)
+	case x < 85: // straddles a page boundary
+		n = 2 + r.Intn(11)
+		off = (1+r.Intn(np))*pgPageSize - 1 - r.Intn(n-1)
+	case x < 95 && np >= 2: // spans three pages
+		k := 1 + r.Intn(np-1)
+		off = k*pgPageSize - 1 - r.Intn(40)
+		n = (k+1)*pgPageSize + 1 + r.Intn(40) - off
+		c.feat["wa-3pages"] = true
+	default: // everything
+		off, n = 0, size
+	}
+	if off < 0 {
+		off = 0
+	}
+	if off+n > size {
+		n = size - off
+	}
+	if n <= 0 {
+		return false
+	}
+	data := make([]byte, n)
+	c.wctr++
+	pgFill(data, c.wctr+77, off)
+	before := b.vb.Pages()
+	wn, err := wa.WriteAt(data, int64(off))
+	after := b.vb.Pages()
+	if wn != n || err != nil {
+		c.fail("GENBUG:writeat-result:%d/%d", wn, n)
+	}
+	if len(after) != len(before) || b.vb.Size() != int64(size) {
+		c.fail("GENBUG:writeat-changed-layout")
+	}
+	copy(b.shadow[off:], data)
+	c.feat["writeat"] = true
+	if off/pgPageSize != (off+n-1)/pgPageSize {
+		c.feat["wa-straddle"] = true
+	}
+	if (off+n)%pgPageSize == 0 {
+		c.feat["wa-ends-on-boundary"] = true
+	}
+	if off%pgPageSize == 0 && off > 0 {
+		c.feat["wa-starts-on-boundary"] = true
+	}
+	for _, rf := range c.refs {
+		if rf.buf == bi && !rf.closed && int(rf.begin) < off+n && off < int(rf.end) {
+			rf.first = append([]byte(nil), b.shadow[rf.begin:rf.end]...) // the owner rewrote bytes under the ref
+			c.feat["wa-under-ref"] = true
+		}
+	}
+	c.op("wat:" + kvfmt.U(uint64(bi)) + ":" + kvfmt.U(uint64(off)) + ":" + kvfmt.Bytes(data))
+	c.observe()
+	return true
+}
+
 func (c *pgCase) stepRF() int {
 	r := c.r
 	alive := c.aliveBufs()
 	if len(alive) == 0 {
 		c.newBuf()
 		return 1
+	}
+	if r.Intn(100) < 25 {
+		if c.writeAt(alive[r.Intn(len(alive))]) {
+			return 1
+		}
 	}
 	if r.Intn(100) < 45 {
 		bi := alive[r.Intn(len(alive))]
